@@ -174,7 +174,7 @@ def glueOp : Handler := fun args =>
   let out := checkConsistency p
   let c := match out with | none => "ok" | some _ => "consistency"
   let mk (sv sc : Bool) : Json :=
-    Json.str (Glue.combine { skipValidation := sv, skipConsistencyCheck := sc } v c)
+    Json.str (Glue.combineIncl { skipValidation := sv, skipConsistencyCheck := sc } (getStrList args "vinc") v c)
   let flags (o : Glue.Opts) : Json :=
     Json.arr #[Json.bool o.skipValidation, Json.bool o.skipNormalization, Json.bool o.resolvePaths,
                Json.bool o.skipConsistencyCheck, Json.bool o.skipExtends, Json.bool o.skipInclude, Json.bool o.skipDefaultValues]
